@@ -101,6 +101,44 @@ func runC01(c *Ctx) {
 		}
 	}
 
+	// (1b) the closed-form schedules are evaluated in float64: an integer quotient that is
+	// converted to float afterwards has already lost its fractional part (Period/Per, elapsed/Per …)
+	const rPrec = "no run-time integer quotient feeds a float64 computation in pacer code: rates and areas are computed as float64(a)/float64(b), never float64(a/b)"
+	for _, fn := range fns {
+		nConv := 0
+		var bad []ssa.Instruction
+		eachInstr(fn, func(i ssa.Instruction) {
+			cv, ok := i.(*ssa.Convert)
+			if !ok {
+				return
+			}
+			if b, isB := cv.Type().Underlying().(*types.Basic); !isB || b.Info()&types.IsFloat == 0 {
+				return
+			}
+			nConv++
+			if flowsFrom(cv.X, func(v ssa.Value) bool {
+				bo, isBo := v.(*ssa.BinOp)
+				if !isBo || bo.Op != token.QUO {
+					return false
+				}
+				if b, isB := bo.Type().Underlying().(*types.Basic); !isB || b.Info()&types.IsInteger == 0 {
+					return false
+				}
+				if _, constDiv := bo.Y.(*ssa.Const); !constDiv {
+					bad = append(bad, bo)
+				}
+				return false
+			}) {
+				bad = append(bad, cv)
+			}
+		})
+		if nConv == 0 {
+			continue
+		}
+		key := "float-precision:" + shortFn(fn)
+		c.Check(len(bad) == 0, key, rPrec, fmt.Sprintf("%d integer→float conversions, none of a truncated quotient", nConv), "an integer quotient is truncated before it enters the float64 schedule formula: the fraction of a period/unit is lost and hits(t) leaves the configured curve", c.atsOr(bad, fn)...)
+	}
+
 	// (4) no other panic-capable instruction; callee whitelist
 	const rPanic = "pacer code contains no index/slice/assertion/map-update/panic instruction and calls only in-package functions or whitelisted total functions"
 	for _, fn := range fns {
